@@ -193,4 +193,39 @@ def exportDoc (od : OD) (dcf : Bool) : Option Doc :=
 def roundTrip (od : OD) (dcf : Bool) (nodeId : Option Int) : Option (Doc × Option OD) :=
   (exportDoc od dcf).map fun d => (d, importEds d nodeId)
 
+/-! ### histories: several export/import rounds within one process
+
+`export_od(od, dest)` with a file name (re)writes that file, with a text stream or standard output
+it leaves the file system alone; `import_od(path)` reads what the path holds now.  Nothing else
+survives a call (`Files`, `importPath`: Import.lean). -/
+
+/-- where a step exports to: a file name (the re-import reads that file), or a stream / standard
+    output (the re-import reads the text that was written) -/
+inductive Dest where
+  | file (path : Str)
+  | stream
+deriving Repr, DecidableEq
+
+structure RoundStep where
+  od : OD
+  dcf : Bool
+  dest : Dest
+  nodeId : Option Int
+deriving Repr, DecidableEq
+
+/-- one round: (new file system, exported document and re-imported dictionary); `none` = the export
+    raised (the file system is then left as it was: the step is not followed by an import) -/
+def roundStep (fs : Files) (s : RoundStep) : Files × Option (Doc × Option OD) :=
+  match exportDoc s.od s.dcf with
+  | none => (fs, none)
+  | some d =>
+    match s.dest with
+    | .file p => let fs' := fs.write p d; (fs', some (d, importPath fs' p s.nodeId))
+    | .stream => (fs, some (d, importEds d s.nodeId))
+
+/-- the results of a whole history, step by step -/
+def roundHistory (fs : Files) : List RoundStep → List (Option (Doc × Option OD))
+  | [] => []
+  | s :: r => (roundStep fs s).2 :: roundHistory (roundStep fs s).1 r
+
 end Canopen.Eds
